@@ -55,6 +55,12 @@ func genC14(seed uint64, tier string, outdir string) *Report {
 		nBlocks := int(planH-h) + rg.Intn(3)
 		for b := 0; b < nBlocks; b++ {
 			h++
+			// sometimes the block is first executed on a branch that is thrown away (a proposal
+			// that ends up rejected, a simulation): that must not change anything, in particular
+			// it must not consume a plan registered for this height
+			if (h == planH && rg.Chance(35)) || rg.Chance(8) {
+				r.Do(TVOp{Kind: "dryblock", H: h})
+			}
 			r.Do(TVOp{Kind: "begin", H: h})
 			for j := rg.Intn(4); j > 0; j-- {
 				r.Do(randValOp(rg, r, 5, 5, true))
@@ -134,6 +140,33 @@ func genC14(seed uint64, tier string, outdir string) *Report {
 			r.Do(TVOp{Kind: "end", H: h})
 		}
 		st.finish(r, true, "registrations")
+	}
+
+	// (b2) block h executed twice by one process: first on a DISCARDED cache branch, then for
+	// real.  The plan registry is node memory, not store state; the real run must still apply
+	// the plan (fresh operator, fresh key, room below the cap: the good situation).
+	for variant := 0; variant < 3; variant++ {
+		st.caseID++
+		r := ve.Start(st.caseID, genesisOf(3, 2, VRec{1, 1, 1}), 3, 3)
+		r.Do(TVOp{Kind: "begin", H: 1})
+		r.Do(TVOp{Kind: "register", Pid: 1, PH: 2, Op: 2, Key: 2, Execs: ve.userStrs(4, 5)})
+		r.Do(TVOp{Kind: "end", H: 1})
+		for n := 0; n <= variant; n++ { // once, twice, three times discarded
+			r.Do(TVOp{Kind: "dryblock", H: 2})
+		}
+		r.Do(TVOp{Kind: "begin", H: 2})
+		if variant == 2 {
+			r.Do(TVOp{Kind: "add", Op: 3, Key: 3})
+		}
+		r.Do(TVOp{Kind: "end", H: 2})
+		r.Do(TVOp{Kind: "dryblock", H: 2}) // replaying the old height afterwards changes nothing either
+		r.Do(TVOp{Kind: "begin", H: 3})
+		r.Do(TVOp{Kind: "end", H: 3})
+		kind := ""
+		if variant == 0 {
+			kind = "plan height pre-executed on a discarded branch"
+		}
+		st.finish(r, true, kind)
 	}
 
 	// (c) known findings, replayed every run
